@@ -463,18 +463,43 @@ def _zlib_status(prog, chk, D5, zu):
                           'inflate status %s does not end in an exception (outcomes %s)' % (cname, sorted(res)))
 
 
-def zlib_loop(prog, zu):
-    """(obody, ocond, vars_, sid, outer) of the decompression loop, as _zlib_status finds them."""
-    outer = [n for n in children(zu.body) if n.get('kind') in ('DoStmt', 'WhileStmt', 'ForStmt')]
+def outer_loop(fn, api):
+    """The outermost loop of fn that contains the call of `api`, wherever it is nested (a block,
+    a try statement): -> (loop body, loop condition or None, loop node)."""
+    LOOPS = ('DoStmt', 'WhileStmt', 'ForStmt')
+
+    def has_call(n):
+        return any(x.get('kind') == 'CallExpr' and _callee_name(x) == api for x in walk(n))
+
+    def find(n):
+        out = []
+        for c in children(n):
+            if c.get('kind') in LOOPS and has_call(c):
+                out.append(c)
+            elif c.get('kind') != 'LambdaExpr':
+                out += find(c)
+        return out
+    outer = find(fn.body)
     if len(outer) != 1:
-        raise AnalysisBroken('zlib_uncompress: expected one top-level loop, found %d' % len(outer))
+        raise AnalysisBroken('%s: expected one loop around %s(), found %d' % (fn.name, api, len(outer)))
     outer = outer[0]
     if outer['kind'] == 'DoStmt':
         obody, ocond = children(outer)[0], children(outer)[1]
     elif outer['kind'] == 'WhileStmt':
         ocond, obody = children(outer)[0], children(outer)[-1]
     else:
-        raise AnalysisBroken('zlib_uncompress: outer loop form not modelled')
+        inner = outer.get('inner', [])
+        inner = inner + [{}] * (5 - len(inner))
+        init, condvar, cond, inc, obody = inner[:5]
+        if inc.get('kind') or condvar.get('kind'):
+            raise AnalysisBroken('%s: for loop with an increment around %s() is not modelled' % (fn.name, api))
+        ocond = cond if cond.get('kind') else None      # for (;;): left only from inside
+    return obody, ocond, outer
+
+
+def zlib_loop(prog, zu):
+    """(obody, ocond, vars_, sid, outer) of the decompression loop."""
+    obody, ocond, outer = outer_loop(zu, 'inflate')
     strm = [x for x in walk(zu.body) if x.get('kind') == 'VarDecl' and 'z_stream' in (x.get('type') or '')]
     if len(strm) != 1:
         raise AnalysisBroken('zlib_uncompress: z_stream variable not found')
@@ -487,7 +512,7 @@ def _callee_name(x):
     return (strip(c[0]).get('referencedDecl') or {}).get('name') if c else None
 
 
-def zlib_roles(fn, obody, sid, api):
+def zlib_roles(fn, obody, sid, api, need_ret=True):
     """The locals of a (de)compression loop, found by what they do, not by what they are called:
 
     ret  the variable that receives the value of the `api` call (inflate / deflate) in the loop;
@@ -557,7 +582,7 @@ def zlib_roles(fn, obody, sid, api):
                 r = strip(init[-1], explicit=True)
                 if r.get('kind') == 'CallExpr' and _callee_name(r) == api:
                     rets.append(x['id'])
-    if len(set(rets)) != 1 or rets[0] not in decls:
+    if need_ret and (len(set(rets)) != 1 or rets[0] not in decls):
         raise AnalysisBroken(what + 'the variable receiving the status of %s() was not found' % api)
     # ptr
     nxt = member_stores('next_in')
@@ -576,7 +601,8 @@ def zlib_roles(fn, obody, sid, api):
                 eroots.append(i)
     if len(eroots) != 1:
         raise AnalysisBroken(what + 'the input limit (pointer from which avail_in is computed) was not found')
-    return {'ptr': decls[proots[0]], 'end': decls[eroots[0]], 'ret': decls[rets[0]]}
+    return {'ptr': decls[proots[0]], 'end': decls[eroots[0]],
+            'ret': decls[rets[0]] if len(set(rets)) == 1 and rets[0] in decls else None}
 
 
 def benign_buf_error(prog, chk, rid, zu, obody, ocond, vars_, sid, outer):
@@ -642,6 +668,8 @@ def _zlib_round(prog, zu, obody, ocond, vars_, sid, code, more_output, exhausted
 
 
 def _cond(ev, ocond, env):
+    if ocond is None or not ocond.get('kind'):
+        return 'continues'          # for (;;)
     v = ev.ev(ocond, env)
     from ..feval import UNKNOWN, Choice
     if v is UNKNOWN or isinstance(v, Choice):
@@ -691,9 +719,128 @@ def _patch(ev, sid, code, more_output):
         return base_ev(n, env)
     ev.ev = ev2
 
+    def repo_helper(call):
+        """The repository function (with a body of its own) a call expression names, or None."""
+        if call.get('kind') != 'CallExpr' or getattr(ev, '_helper_depth', 0) >= 3:
+            return None
+        d, qn, virt, recv = ev.prog.resolve_callee(ev.tu, call)
+        if not qn:
+            return None
+        gs = [g for g in ev.prog.by_name(qn) if g.body is not None and not g.is_pattern
+              and ev.prog.in_repo(g.file)]
+        if len(gs) != 1 or len(gs[0].params) != len(children(call)) - 1:
+            return None
+        return gs[0]
+
+    def call_helper(call, g, env, trace):
+        """Part of the loop moved into a function of its own (status handling, feeding the next
+        slice): the body is executed in place with the arguments bound.  Objects passed by
+        reference / address (the z_stream, the status variable) are the caller's objects: their
+        members and values are copied in and written back.  -> (throw outcome | None, caller env,
+        returned value)"""
+        from ..feval import Evaluator
+        args = children(call)[1:]
+        env2 = {k_: v_ for k_, v_ in env.items() if isinstance(k_, tuple)}
+        shared = []                 # (parameter id, caller variable id, written back?)
+        sid2 = sid
+        for prm, a in zip(g.params, args):
+            env2[prm['id']] = ev.ev(a, env)
+            t = strip(a, explicit=True)
+            if t.get('kind') == 'UnaryOperator' and t.get('opcode') == '&':
+                t = strip(children(t)[0], explicit=True)
+            if t.get('kind') != 'DeclRefExpr':
+                continue
+            aid = (t.get('referencedDecl') or {}).get('id')
+            pt = prm.get('type') or ''
+            byref = '&' in pt or pt.rstrip().endswith('*')
+            for k_, v_ in list(env.items()):
+                if isinstance(k_, tuple) and len(k_) == 3 and k_[0] == 'member' and k_[1] == aid:
+                    env2[('member', prm['id'], k_[2])] = v_
+            if byref:
+                shared.append((prm['id'], aid, '&' in pt and 'const' not in pt.split('&')[0]))
+                if aid == sid:
+                    sid2 = prm['id']
+        sub = Evaluator(ev.prog, g, ev.call_hook, ev.max_paths)
+        sub.inner_cond = ev.inner_cond
+        sub.in_left = ev.in_left
+        if hasattr(ev, 'deflate_calls'):
+            sub.deflate_calls = ev.deflate_calls
+        sub._helper_depth = getattr(ev, '_helper_depth', 0) + 1
+        _patch(sub, sid2, code, more_output)
+        for st, e in sub.exec(g.body, env2, trace + (('call', g.qualname),)):
+            back = dict(env)
+            for pid_, aid, scalar in shared:
+                for k_, v_ in e.items():
+                    if isinstance(k_, tuple) and len(k_) == 3 and k_[0] == 'member' and k_[1] == pid_:
+                        back[('member', aid, k_[2])] = v_
+                if scalar and pid_ in e and aid in env:
+                    back[aid] = e[pid_]
+            if st is not None and st.kind == 'throw':
+                yield st, back, None
+            elif st is not None and st.kind == 'return':
+                yield None, back, st.value
+            else:
+                yield None, back, None
+        ev.unsupported.extend(sub.unsupported)
+
+    def helper_stmt(n, env, trace):
+        """`f(...);`, `x = f(...);`, `T x = f(...);`, `return f(...)` is left to the base - with f a
+        repository function: -> generator of (status, env) or None."""
+        x = strip(n)
+        target = None
+        call = None
+        if x.get('kind') == 'CallExpr':
+            call = x
+        elif x.get('kind') == 'BinaryOperator' and x.get('opcode') == '=':
+            c = children(x)
+            r = strip(c[1], explicit=True)
+            l = strip(c[0])
+            if r.get('kind') == 'CallExpr' and l.get('kind') in ('DeclRefExpr', 'MemberExpr'):
+                call, target = r, l
+        elif n.get('kind') == 'DeclStmt':
+            ds = [d for d in children(n) if d.get('kind') == 'VarDecl']
+            if len(ds) == 1 and len(children(n)) == 1:
+                init = [y for y in children(ds[0]) if not y['kind'].endswith('Attr')]
+                r = strip(init[-1], explicit=True) if init else {}
+                if r.get('kind') == 'CallExpr':
+                    call, target = r, ds[0]
+        if call is None:
+            return None
+        g = repo_helper(call)
+        if g is None:
+            return None
+        body = [y for y in children(g.body) if not y.get('kind', '').endswith('Comment')]
+        if len(body) == 1 and body[0].get('kind') == 'ReturnStmt' and \
+                not any(y.get('kind') == 'CallExpr' for y in walk(body[0])):
+            return None         # a pure one-line function: evaluated as a value by the base
+
+        def gen():
+            for st, e, v in call_helper(call, g, env, trace):
+                if st is not None:
+                    yield st, e
+                    continue
+                if target is not None:
+                    if v is None:
+                        v = UNKNOWN
+                    if target.get('kind') == 'VarDecl':
+                        e[target['id']] = v
+                    elif target.get('kind') == 'DeclRefExpr':
+                        e[target['referencedDecl']['id']] = v
+                    else:
+                        b = strip(children(target)[0]) if children(target) else {}
+                        if b.get('kind') == 'DeclRefExpr':
+                            e[('member', b['referencedDecl']['id'], target.get('name'))] = v
+                yield None, e
+        return gen()
+
     def exec2(n, env, trace):
         k = n.get('kind')
         x = strip(n)
+        hs = helper_stmt(n, env, trace)
+        if hs is not None:
+            for r in hs:
+                yield r
+            return
         if x.get('kind') == 'BinaryOperator' and x.get('opcode') == '=':
             c = children(x)
             l = strip(c[0])
